@@ -10,4 +10,9 @@ CONSTANTS
   Video <- Vid2
   NoBtrt <- T2
   RecordHist = TRUE
+  FixBufResize = TRUE
+  FixCtrResize = TRUE
+  FixDropBound = TRUE
+  FixDeriveGuards = TRUE
+  FixLateTrack = TRUE
 INVARIANTS Emit
